@@ -17,6 +17,16 @@ def digest(arr):
 
 def main():
     cfg = json.loads(sys.argv[1])
+    if cfg.get("warm"):
+        # the same problem was already meshed and simulated once in THIS process: hidden state (caches, module-level
+        # memoisation, consumed random numbers) must not leak into the repetition
+        first = dict(cfg)
+        first["fname"] = "warmup_" + cfg.get("fname", "out.h5")
+        one(first)
+    print("RESULT " + json.dumps(one(cfg), sort_keys=True))
+
+
+def one(cfg):
     import logging
     logging.getLogger("solver").setLevel(logging.ERROR)
     import tqdm
@@ -32,7 +42,7 @@ def main():
     if cfg.get("four_terminals"):
         terms += [tdgl.Polygon("top", points=box(1.8, 0.2, center=(0, 2))), tdgl.Polygon("bottom", points=box(1.8, 0.2, center=(0, -2)))]
     dev = tdgl.Device("d", layer=layer, film=film, holes=holes, terminals=terms, probe_points=[(-1.5, -1.0), (1.5, 1.0)])
-    dev.make_mesh(max_edge_length=cfg.get("mel", 0.8), smooth=cfg.get("smooth", 2))
+    dev.make_mesh(max_edge_length=cfg.get("mel", 0.8), smooth=cfg.get("smooth", 2), **({"min_points": cfg["min_points"]} if "min_points" in cfg else {}))
     out = {"mesh": {}}
     m = dev.mesh
     for n in ("sites", "elements", "boundary_indices", "areas", "dual_sites"):
@@ -70,7 +80,7 @@ def main():
             data[f"data/{k}@attrs"] = json.dumps({kk: (float(v) if kk != "timestamp" else 0) for kk, v in a.items() if kk != "timestamp"}, sort_keys=True)
     out["data"] = data
     out["threads"] = os.environ.get("NUMBA_NUM_THREADS")
-    print("RESULT " + json.dumps(out, sort_keys=True))
+    return out
 
 
 if __name__ == "__main__":
